@@ -311,6 +311,7 @@ func explainGenErrors(errs []string, gen, genName string, cf *ContractFile) stri
 
 type funcSite struct {
 	preferLocals bool // loop invariants: a local named `result` shadows the result keyword
+	anyScope bool // call-site clauses: locals of nested blocks are visible by (unique) name
 	extra   map[string]types.Type // names bound by name rather than by scope (interface contracts, call sites)
 	recvVar *types.Var
 	sig     *types.Signature
@@ -624,6 +625,32 @@ func collectParams(expr ast.Expr, site *funcSite, scope *types.Scope, pkgScope *
 					if v, ok := obj.(*types.Var); ok && v.Parent() != pkgScope && v.Parent() != types.Universe && !v.IsField() {
 						params = append(params, ClauseParam{Name: nm, Kind: "var", Pos: int(v.Pos())})
 						ptypes = append(ptypes, types.TypeString(v.Type(), g.qual))
+						return true
+					}
+					return true
+				}
+				// call-site clauses may mention a local of a nested block, if its name is unique in the function
+				if site.anyScope && site.body != nil {
+					var found *types.Var
+					count := 0
+					var visit func(sc *types.Scope)
+					visit = func(sc *types.Scope) {
+						if o := sc.Lookup(nm); o != nil {
+							if v, ok := o.(*types.Var); ok {
+								found = v
+								count++
+							}
+						}
+						for i := 0; i < sc.NumChildren(); i++ {
+							visit(sc.Child(i))
+						}
+					}
+					if fs := pkgScope.Innermost(site.body.Lbrace + 1); fs != nil {
+						visit(fs)
+					}
+					if count == 1 {
+						params = append(params, ClauseParam{Name: nm, Kind: "var", Pos: int(found.Pos())})
+						ptypes = append(ptypes, types.TypeString(found.Type(), g.qual))
 					}
 				}
 			}
@@ -884,6 +911,7 @@ func generateClauses(L *Loaded, root *packages.Package, cf *ContractFile, droppe
 			}
 			if cl.Kind == "callsite" {
 				cp := *site
+				cp.anyScope = true
 				if cl.CallType == "chansend" {
 					// arg0: the value sent; typed as the element type of the first channel field sent to — kept generic
 					cp.extra = map[string]types.Type{"arg0": types.NewInterfaceType(nil, nil)}
@@ -895,6 +923,18 @@ func generateClauses(L *Loaded, root *packages.Package, cf *ContractFile, droppe
 					cp.extra = map[string]types.Type{"callee": ft}
 					for k := 0; k < fsig.Params().Len(); k++ {
 						cp.extra[fmt.Sprintf("arg%d", k)] = fsig.Params().At(k).Type()
+					}
+				} else if strings.HasPrefix(cl.CallType, "iface:") || strings.HasPrefix(cl.CallType, "ext:") {
+					cs, err := findFuncSite(root, cl.CallType)
+					if err != nil {
+						return "", fmt.Errorf("verif_contracts.go:%d: callsite: %v", cl.Line, err)
+					}
+					cp.extra = map[string]types.Type{}
+					if t, ok := cs.extra["self"]; ok {
+						cp.extra["self"] = t
+					}
+					for j := 0; j < cs.sig.Params().Len(); j++ {
+						cp.extra[fmt.Sprintf("arg%d", j)] = cs.sig.Params().At(j).Type()
 					}
 				} else if cs, err := findFuncSite(root, cl.CallType); err == nil {
 					// a statically called function or method of the package: arg0 is the receiver
